@@ -47,6 +47,7 @@ CHECKS["C02"] = {
         J("exh3", "c02", "TestExhaustive3", None, None, 4, replay_json=True),
         J("exh4", "c02", "TestExhaustive4", None, None, 16, tiers=["thorough"], replay_json=True),
         J("scale", "c02", "TestScale", 5, 60, 4),
+        J("deepcycles", "c02", "TestStaticDeepCycles", None, None),
     ],
     "assumptions": [
         "termination is decided up to a deterministic step budget (one creation per component name, creation nesting depth <= #components+40)",
